@@ -582,12 +582,19 @@ func main() {
 		if _, ok := byFn[b.f]; !ok {
 			order = append(order, b.f)
 		}
-		if len(byFn[b.f]) >= maxBlocksPerFn {
-			// every tuple has been compared (by hash); only the tuple-by-tuple listing is limited
-			r.Extra("listing_limited", fmt.Sprintf("tuple-by-tuple listing limited to the first %d differing blocks / %d single-tuple cases of a function", maxBlocksPerFn, maxSingles))
-			continue
-		}
 		byFn[b.f] = append(byFn[b.f], b)
+	}
+	for _, f := range order {
+		if bs := byFn[f]; len(bs) > maxBlocksPerFn {
+			// every tuple has been compared (by hash); only the tuple-by-tuple listing is limited: to
+			// maxBlocksPerFn differing blocks spread evenly over the function's tuple space
+			r.Extra("listing_limited", fmt.Sprintf("tuple-by-tuple listing limited to %d differing blocks (evenly spread) / %d single-tuple cases of a function", maxBlocksPerFn, maxSingles))
+			var pick []badBlock
+			for i := 0; i < maxBlocksPerFn; i++ {
+				pick = append(pick, bs[i*len(bs)/maxBlocksPerFn])
+			}
+			byFn[f] = pick
+		}
 	}
 	r.Extra("bad_blocks", len(bad))
 	r.Extra("functions_with_bad_blocks", len(order))
@@ -665,7 +672,7 @@ func refineFn(r *mc.Run, pool *mc.Pool, f *fn, blocks []badBlock) bool {
 	for _, sp := range singles {
 		for t := sp.lo; t < sp.hi; t++ {
 			if len(cs) >= maxSingles {
-				r.Extra("listing_limited", fmt.Sprintf("tuple-by-tuple listing limited to the first %d differing blocks / %d single-tuple cases of a function", maxBlocksPerFn, maxSingles))
+				r.Extra("listing_limited", fmt.Sprintf("tuple-by-tuple listing limited to %d differing blocks (evenly spread) / %d single-tuple cases of a function", maxBlocksPerFn, maxSingles))
 				break
 			}
 			cs = append(cs, caseSpec{F: f, Lo: t, Hi: t + 1, Bl: 1, Verbose: true})
